@@ -344,6 +344,7 @@ def run_C10(ctx, R):
     _per_config(ctx, R, entry_view(only_entry))
     _per_config(ctx, R, entry_view(parse.c10_structure))
     _per_config(ctx, R, entry_view(parse.ent1))
+    _per_config(ctx, R, _inl(parse.tab4))          # a literal that ends the buffer is a complete document for every entry point
     _per_config(ctx, R, _inl(parse.tab22))
     _per_config(ctx, R, parse.tab2_parse)
 
